@@ -5,6 +5,7 @@
 import SA.Props.C02
 import SA.Proofs.AcceptTimed
 import SA.Gen.Locks
+import SA.Gen.PkgVars
 namespace SA.Accept
 
 /-- **no_hol_if_off_loop**: when the session handshake runs off the accept loop, then for every set of
@@ -82,3 +83,16 @@ end SA.Accept
 #print axioms SA.Accept.C15_handshake_off_loop
 #print axioms SA.Accept.C15_witness_stall
 #print axioms SA.Accept.C15_locks_not_reentrant
+
+namespace SA.PkgState
+/-- **no_hidden_process_state**: the models of this property are functions of their arguments and of the objects they are
+    handed; the packages they model keep no package-level variables besides these (regenerated inventory: error
+    sentinels, tables, compiled patterns, the two session time-outs).  A new package-level variable — a counter, a cache, a
+    scratch buffer, a shared map, a registry — would make later calls depend on earlier ones, or concurrent calls on each
+    other, outside anything a per-call comparison of model and code can see. -/
+theorem C15_no_hidden_process_state :
+    Gen.pkgVarNames_server = ["ChannelRegex"] ∧
+    Gen.pkgVarNames_dns = ["ConnectionTimeout", "ErrConnectionFailed", "ErrHandshakeNotCompleted", "OldConnectionTimeout"] := by decide
+end SA.PkgState
+
+#print axioms SA.PkgState.C15_no_hidden_process_state
